@@ -61,6 +61,35 @@ func (e *emitter) c05Details(s *source, rel, goName, leanName string, calls map[
 	e.stringList(leanName, "capacity-relevant details of `"+goName+"` in "+rel, out)
 }
 
+// c05Returns lists the result expressions of every return statement (syntactic order), so that
+// "which value is reported on which branch" (nil / ErrLimitReturn / true / false / ErrTaskRunnerBusy) is tied.
+func (e *emitter) c05Returns(s *source, rel, goName, leanName string) {
+	fd := s.findFunc(rel, goName)
+	if fd == nil {
+		e.errors = append(e.errors, "function "+goName+" not found in "+rel)
+		e.stringList(leanName, "MISSING: "+goName+" in "+rel, []string{"MISSING"})
+		return
+	}
+	var out []string
+	ast.Inspect(fd.Body, func(n ast.Node) bool {
+		switch x := n.(type) {
+		case *ast.FuncLit:
+			return false // results of nested function literals belong to them
+		case *ast.ReturnStmt:
+			tok := "return"
+			for i, r := range x.Results {
+				if i > 0 {
+					tok += ","
+				}
+				tok += " " + s.src(r)
+			}
+			out = append(out, tok)
+		}
+		return true
+	})
+	e.stringList(leanName, "results returned by `"+goName+"` in "+rel, out)
+}
+
 func init() {
 	register("C05", func(s *source, e *emitter) {
 		none := map[string]bool{}
@@ -68,6 +97,11 @@ func init() {
 		e.shapeDef(s, "core/syncx/limit.go", "Limit.Return", "returnShape")
 		e.shapeDef(s, "core/syncx/limit.go", "Limit.TryBorrow", "tryBorrowShape")
 		e.c05Details(s, "core/syncx/limit.go", "NewLimit", "newLimitDetails", none)
+		e.c05Returns(s, "core/syncx/limit.go", "Limit.Return", "returnResults")
+		e.c05Returns(s, "core/syncx/limit.go", "Limit.TryBorrow", "tryBorrowResults")
+		e.c05Returns(s, "core/syncx/timeoutlimit.go", "TimeoutLimit.Borrow", "tlBorrowResults")
+		e.c05Returns(s, "core/syncx/timeoutlimit.go", "TimeoutLimit.Return", "tlReturnResults")
+		e.c05Returns(s, "core/threading/taskrunner.go", "TaskRunner.ScheduleImmediately", "scheduleImmResults")
 		e.shapeDef(s, "core/syncx/timeoutlimit.go", "TimeoutLimit.Borrow", "tlBorrowShape")
 		e.shapeDef(s, "core/syncx/timeoutlimit.go", "TimeoutLimit.Return", "tlReturnShape")
 		e.shapeDef(s, "core/syncx/timeoutlimit.go", "TimeoutLimit.TryBorrow", "tlTryBorrowShape")
